@@ -17,7 +17,7 @@ def pure_function(name, result_kind, nargs=1, facts=None):
     v = ex.wrap(st, t, kind)
     if facts:
       for c in facts(t):
-        st.assume(c)
+        st.axiom(c)
     return [(st, v)]
   return spec
 
